@@ -21,7 +21,7 @@ import vlib
 THEOREMS = [
     "order_sorted_perm", "order_limit_slice", "topn_eq_order_limit", "limit_count", "limit_subset",
     "absent_limit", "limit_exec_spec", "topn_absent_limit", "merge_iter_sorted", "memtable_sorted",
-    "compaction_sorted_perm", "merge_heap_sorted", "topn_heap_eq_order_limit",
+    "compaction_sorted_perm", "merge_heap_bounds", "merge_heap_sorted", "topn_heap_eq_order_limit",
     "concat_scan_sorted_iff", "table_scan_sorted", "two_rowsets_scan_sorted", "scan_contract_sorted", "order_analysis_sound",
     "useless_order_sound_partial", "useless_order_sound",
 ]
@@ -713,6 +713,77 @@ def impl_search(ck, T, which, binname, drv, judge, n=150):
 
 
 # ---------------------------------------------------------------------------------------------
+# translator: the loop bounds of MergeIterator::replace_pending_data are DATA in the source; they
+# are re-extracted on every run into lean/RlModel/Gen/MergeHeap.lean, the model's sift-down uses
+# them, and theorem `merge_heap_bounds` must re-prove that they are the exact heap bounds
+# ---------------------------------------------------------------------------------------------
+
+
+def _rust_expr_to_lean(e, lets):
+    """usize expression over processing_element / heap length / earlier lets -> Lean Nat term"""
+    import re
+    e = e.strip()
+    for _ in range(8):      # substitute earlier `let` bindings
+        for name, val in lets.items():
+            e = re.sub(r"\b%s\b" % re.escape(name), "(" + val + ")", e)
+    e = e.replace("self.pending_heap.len()", "len").replace("self.pending_data_len()", "len")
+    e = re.sub(r"\bprocessing_element\b", "i", e)
+    if not re.fullmatch(r"[\s0-9+\-*()a-z]*", e) or re.search(r"[a-z_]{2,}", e.replace("len", "")):
+        raise ValueError("cannot translate expression: " + e)
+    return e
+
+
+def gen_merge_heap(repo):
+    import re
+    src = open(os.path.join(repo, "src/storage/secondary/merge_iterator.rs")).read()
+    m = re.search(r"fn replace_pending_data\b.*?\n    }\n", src, re.S)
+    if not m:
+        raise ValueError("replace_pending_data not found")
+    body = m.group(0)
+    lets = {}
+    for lm in re.finditer(r"let (?:mut )?(\w+) = ([^;{]+);", body):
+        name, val = lm.group(1), lm.group(2).strip()
+        if name in ("pop_data", "selected_child", "processing_element"):
+            continue
+        lets[name] = val
+    stop = re.search(r"if left_child\s*(>=|>)\s*([^{]+)\{", body)
+    rok = re.search(r"if right_child\s*(<=|<)\s*([^\n&{]+)", body)
+    if not (stop and rok and "left_child" in lets and "right_child" in lets):
+        raise ValueError("loop bounds of replace_pending_data not recognised")
+    only = {k: v for k, v in lets.items() if k not in ("left_child", "right_child")}
+    left_idx = _rust_expr_to_lean(lets["left_child"], only)
+    right_idx = _rust_expr_to_lean(lets["right_child"], dict(only, left_child=lets["left_child"]))
+    stop_rhs = _rust_expr_to_lean(stop.group(2), only)
+    rok_rhs = _rust_expr_to_lean(rok.group(2), only)
+    text = """/- GENERATED on every run of ./check C12 by checks/c12.py (gen_merge_heap) from
+   src/storage/secondary/merge_iterator.rs, fn replace_pending_data. Do not edit. -/
+namespace RlModel.Gen
+
+/-- `let left_child = %s;` -/
+def mergeLeftIdx (i : Nat) : Nat := %s
+
+/-- `let right_child = %s;` -/
+def mergeRightIdx (i : Nat) : Nat := %s
+
+/-- `if left_child %s %s { break }` -/
+def mergeLeftStop (left len : Nat) : Bool := decide (left %s %s)
+
+/-- `if right_child %s %s && ...` -/
+def mergeRightOk (right len : Nat) : Bool := decide (right %s %s)
+
+end RlModel.Gen
+""" % (lets["left_child"], left_idx, lets["right_child"], right_idx,
+       stop.group(1), stop.group(2).strip(), {">=": "≥", ">": ">"}[stop.group(1)], stop_rhs,
+       rok.group(1), rok.group(2).strip(), {"<": "<", "<=": "≤"}[rok.group(1)], rok_rhs)
+    path = os.path.join(vlib.LEAN, "RlModel", "Gen", "MergeHeap.lean")
+    old = open(path).read() if os.path.exists(path) else None
+    if old != text:
+        with open(path, "w") as f:
+            f.write(text)
+    return text
+
+
+# ---------------------------------------------------------------------------------------------
 # the check
 # ---------------------------------------------------------------------------------------------
 
@@ -756,6 +827,11 @@ def finish_reports(ck, T, binname):
 
 def run(ck):
     n = 420 if ck.quick() else 3000
+    try:
+        gen_merge_heap(vlib.REPO)
+    except Exception as ex:     # strict translator: anything unparsed fails the check
+        ck.report("translator:merge-heap-bounds", "MergeIterator::replace_pending_data is no longer in the shape the translator reads: %s" % ex,
+                  replay={"file": "src/storage/secondary/merge_iterator.rs", "error": str(ex)}, found_input=False)
     bad = vlib.step_lean(ck, "RlModel.Thm.C12", THEOREMS, extra_targets=["drv_c12"])
     ok, log = vlib.step_cargo(ck, ["c12"])
     if not ok:
